@@ -371,7 +371,12 @@ func (r *Round) UpdateNotarizedBlock(b *block.Block) {
 
 /*GetNotarizedBlocks - return all the notarized blocks associated with this round */
 func (r *Round) GetNotarizedBlocks() []*block.Block {
-	return r.notarizedBlocks
+	r.mutex.RLock()
+	defer r.mutex.RUnlock()
+	// a copy: AddNotarizedBlock and UpdateNotarizedBlock modify the slice in place
+	nbs := make([]*block.Block, len(r.notarizedBlocks))
+	copy(nbs, r.notarizedBlocks)
+	return nbs
 }
 
 /*AddProposedBlock - this will be concurrent as notarization is recognized by verifying as well as notarization message from others */
@@ -400,7 +405,10 @@ func (r *Round) addProposedBlock(b *block.Block) {
 func (r *Round) GetProposedBlocks() []*block.Block {
 	r.mutex.RLock()
 	defer r.mutex.RUnlock()
-	return r.proposedBlocks
+	// a copy: addProposedBlock replaces and sorts entries in place
+	pbs := make([]*block.Block, len(r.proposedBlocks))
+	copy(pbs, r.proposedBlocks)
+	return pbs
 }
 
 func (r *Round) GetBestRankedProposedBlock() *block.Block {
@@ -413,7 +421,8 @@ func (r *Round) GetBestRankedProposedBlock() *block.Block {
 	if len(pbs) == 1 {
 		return pbs[0]
 	}
-	pbs = r.GetBlocksByRank(pbs)
+	// sort a copy: only the read lock is held
+	pbs = r.GetBlocksByRank(append([]*block.Block(nil), pbs...))
 	return pbs[0]
 }
 
@@ -445,7 +454,8 @@ func (r *Round) GetBestRankedNotarizedBlock() *block.Block {
 	if len(rnb) == 1 {
 		return rnb[0]
 	}
-	rnb = r.GetBlocksByRank(rnb)
+	// sort a copy: only the read lock is held
+	rnb = r.GetBlocksByRank(append([]*block.Block(nil), rnb...))
 	return rnb[0]
 }
 
@@ -810,25 +820,36 @@ func (r *Round) Clone() RoundI {
 		shares[k] = s.Clone()
 	}
 
-	return &Round{
+	// the timeout counter has its own mutex
+	r.timeoutCounter.mutex.RLock()
+	tc := timeoutCounter{
+		prrs:  r.timeoutCounter.prrs,
+		perm:  r.timeoutCounter.perm,
+		count: r.timeoutCounter.count,
+		votes: make(map[string]int, len(r.timeoutCounter.votes)),
+	}
+	for k, v := range r.timeoutCounter.votes {
+		tc.votes[k] = v
+	}
+	r.timeoutCounter.mutex.RUnlock()
+
+	clone := &Round{
 		Number:           r.Number,
-		RandomSeed:       r.RandomSeed,
+		RandomSeed:       r.GetRandomSeed(), // atomic
 		Block:            r.Block.Clone(),
 		BlockHash:        r.BlockHash,
 		VRFOutput:        r.VRFOutput,
 		minerPerm:        mp,
-		phase:            r.phase,
+		phase:            r.getState(), // atomic
 		finalizingState:  r.finalizingState,
 		proposedBlocks:   pblocks,
 		notarizedBlocks:  nblocks,
 		shares:           shares,
-		softTimeoutCount: r.softTimeoutCount,
-		vrfStartTime:     r.vrfStartTime,
-		timeoutCounter: timeoutCounter{
-			prrs:  r.timeoutCounter.prrs,
-			perm:  r.timeoutCounter.perm,
-			count: r.timeoutCounter.count,
-			votes: r.timeoutCounter.votes,
-		},
+		softTimeoutCount: int32(r.GetSoftTimeoutCount()), // atomic
+		timeoutCounter:   tc,
 	}
+	if t := r.vrfStartTime.Load(); t != nil {
+		clone.vrfStartTime.Store(t)
+	}
+	return clone
 }
